@@ -412,6 +412,18 @@ def handle (toks : List String) : Option String :=
     let (p, ts) ← pPolicy ts
     let q ← full (pInquiry ts)
     pure ("ok " ++ showB (Vakt.Prefilter.candidate b k p q))
+  | "MIGDOC" :: "m4up" :: ts => do
+    let v ← full (pVal ts)
+    match v with
+    | .dict d =>
+      (match Vakt.StorageCodec.fromMongoDoc 64 '<' '>' d with
+       | Option.none => pure "unmodelled"
+       | some p =>
+         if !(Vakt.RuleCodec.Policy.wf p && Vakt.StorageCodec.compileModelled p) then pure "unmodelled" else
+         match Vakt.StorageCodec.mongoDoc Vakt.StorageCodec.modelCompile p with
+         | some nd => pure ("ok " ++ showVal (PyVal.dict (Vakt.StorageCodec.setAll nd d)))
+         | Option.none => pure "raises")
+    | _ => none
   | "MIGDOC" :: which :: ts => do
     let v ← full (pVal ts)
     let proc ← (match which with
